@@ -276,15 +276,21 @@ def build_driver(wd, tags="verif"):
     """Build the harness against /repo's current working tree with hooks on."""
     e = dict(os.environ)
     e.update(GOENV)
-    gomod = os.path.join(HARNESS, "go.mod")
-    txt = open(gomod).read()
-    want = "replace github.com/go-netty/go-netty => %s" % REPO
-    if want not in txt:
-        txt = re.sub(r"replace github.com/go-netty/go-netty => \S+", want, txt)
-        open(gomod, "w").write(txt)
     out = os.path.join(wd, "driver")
     t0 = time.time()
-    p = subprocess.run(["go", "build", "-tags", tags, "-o", out, "./cmd/driver"], cwd=HARNESS, env=e,
+    cmd = ["go", "build", "-tags", tags, "-o", out]
+    if REPO != "/repo":
+        # evaluate another tree (a scratch worktree with a seeded change) without touching go.mod
+        txt = open(os.path.join(HARNESS, "go.mod")).read()
+        txt = re.sub(r"replace github.com/go-netty/go-netty => \S+", "replace github.com/go-netty/go-netty => %s" % REPO, txt)
+        mf = os.path.join(wd, "go.mod")
+        open(mf, "w").write(txt)
+        if os.path.exists(os.path.join(HARNESS, "go.sum")):
+            shutil.copy(os.path.join(HARNESS, "go.sum"), os.path.join(wd, "go.sum"))
+        else:
+            open(os.path.join(wd, "go.sum"), "w").close()
+        cmd += ["-modfile", mf]
+    p = subprocess.run(cmd + ["./cmd/driver"], cwd=HARNESS, env=e,
                        stdout=subprocess.PIPE, stderr=subprocess.STDOUT, text=True, timeout=600)
     if p.returncode != 0:
         raise Inconclusive("harness does not build against %s:\n%s" % (REPO, p.stdout[-3000:]))
@@ -399,8 +405,11 @@ def validate_traces_generic(wd, name, trace_module, consts, results, invariants,
     rounds = 0
     while todo:
         rounds += 1
-        if rounds > 25:
-            raise Inconclusive("trace validation of %s needs more than 25 rounds" % name)
+        if rounds > 8:
+            # many executions do not conform: stop validating (the oracle decides the verdict);
+            # the rest is reported as rejected without a position
+            rejected += [(r["id"], 0, 0) for r in todo]
+            break
         tf = os.path.join(wd, "%s-trace-%d.ndjson" % (name, rounds))
         nlines = write_trace_file(tf, todo, reset)
         cfg_lines = ["SPECIFICATION TraceSpec", "CONSTRAINT Mark", "POSTCONDITION TraceAccepted"]
